@@ -520,6 +520,57 @@ fn runs_family(ctx: &Ctx) -> Stats {
             }
         }
     });
+    // k copies of X followed by a varied ASCII run: the grown output buffer ends inside the run
+    if !fw::should_stop() {
+        let e2 = par_run(ctx, all.len(), |part, st| {
+            let enc = all[part];
+            let mut drv = EncDriver::new();
+            let mut ddrv = DecDriver::new();
+            let algo = algo_for(enc);
+            let mut dspecials: Vec<Vec<u8>> = crate::hist::atoms(algo).into_iter().filter(|a| a.iter().any(|b| *b >= 0x80)).collect();
+            dspecials.push(vec![0xFF]);
+            dspecials.truncate(6);
+            for k in 0..=48usize {
+                if fw::should_stop() {
+                    return;
+                }
+                for l in [17usize, 20, 33, 47, 50, 64, 81, 113, 240] {
+                    let run: String = (0..l).map(|i| (b' ' + ((i * 7 + k) % 90) as u8) as char).collect();
+                    for x in [0x80u32, 0x5D0, 0x1F600, 0x1B] {
+                        let mut t = String::new();
+                        for _ in 0..k {
+                            t.push(char::from_u32(x).unwrap());
+                        }
+                        t.push_str(&run);
+                        if (k + l) % 2 == 0 {
+                            t.push('\u{E9}');
+                            t.push_str(&run[..8]);
+                        }
+                        st.evals += 1;
+                        st.nontrivial_distinct();
+                        st.class("encode-k-unmappables-then-ascii-run");
+                        if let Some(msg) = check_encode(enc, &t, &mut drv) {
+                            st.violations.push(Violation { msg: format!("{} text {} x U+{:04X} then {} ASCII characters: {}", enc.name(), k, x, l, msg), sig: "C11:encode".into(), case: json!({"kind": "c11_encode", "encoding": encs::const_name(enc), "text_utf8_hex": fw::hex(t.as_bytes())}) });
+                            return;
+                        }
+                    }
+                    for x in &dspecials {
+                        let mut t: Vec<u8> = Vec::new();
+                        for _ in 0..k {
+                            t.extend_from_slice(x);
+                        }
+                        t.extend_from_slice(run.as_bytes());
+                        st.class("decode-k-specials-then-ascii-run");
+                        if !run_dec_bytes(enc, &t, &mut ddrv, st, true) {
+                            return;
+                        }
+                    }
+                }
+            }
+        });
+        st.merge(e2);
+        st.exhaustive.push("encode / decode*: per encoding, k = 0..=48 copies of an unmappable character / a special byte sequence followed by a varied ASCII run of 17..240 characters".into());
+    }
     st.exhaustive.push("encode: per encoding, k copies of X then Y for every k in 0..=300 (thorough 520), X in {ESC, SO, U+0080, U+05D0, U+1F600, U+10FFFF, U+00E9, a mapped character}, Y over the class alphabet".into());
     if fw::should_stop() {
         return st;
